@@ -82,6 +82,10 @@ ROLES = {
     '_get_acquisition_index': ('elfi.methods.inference.bolfi:BayesianOptimization', 'method',
                                lambda f: f.params[1:2] == ['batch_index'] and _has(f, '//') and
                                _has(f, 'n_initial_evidence')),
+    '_should_optimize': ('elfi.methods.inference.bolfi:BayesianOptimization', 'method',
+                         lambda f: f.params == ['self'] and _has(f, "'last_GP_update'") and
+                         _has(f, 'update_interval') and not f.is_property and
+                         f.name not in ('__init__', 'update')),
     '_normalize_params': ('elfi.methods.utils:GMDistribution', 'method',
                           lambda f: bool(_calls(f, 'normalize_weights'))),
     '_adjust': ('elfi.methods.post_processing:RegressionAdjustment', 'method',
